@@ -343,6 +343,9 @@ def splice_fn(ntext, spec, fname):
                     raise ExtractError('lost-anchor', '%s: loop #%d is not a for-in loop' % (fname, n))
                 edits.append((inpos, ' ' + G_OPEN + itername + ':' + G_CLOSE, 0))
             edits.append((lopen, '\n' + '\n'.join('\x00G' + l for l in lines) + '\n', 1))
+            body_lines = spec.get('loopbody', {}).get(n)
+            if body_lines:
+                edits.append((lopen + 1, '\n' + '\n'.join('\x00G' + l for l in body_lines), 2))
 
     # --- closure contracts: n-th closure literal in the body gets ` -> (r: T) requires/ensures ..` after its `|params|`
     if spec.get('closures'):
@@ -385,6 +388,19 @@ def splice_fn(ntext, spec, fname):
             if ln.strip().startswith(anchor):
                 hits.append(off)
             off += len(ln) + 1
+        mo = re.match(r'^(.*)\s#(\d+)$', anchor)
+        if mo:
+            # "<text> #k": the k-th line starting with <text>
+            hits = []
+            off = bopen + 1
+            for ln in ntext[bopen + 1:bclose].split('\n'):
+                if ln.strip().startswith(mo.group(1)):
+                    hits.append(off)
+                off += len(ln) + 1
+            k = int(mo.group(2))
+            if k >= len(hits):
+                raise ExtractError('lost-anchor', '%s: anchor %r: only %d matching lines' % (fname, anchor, len(hits)))
+            hits = [hits[k]]
         if len(hits) != 1:
             raise ExtractError('lost-anchor', '%s: anchor %r matches %d lines' % (fname, anchor, len(hits)))
         if where == 'before':
@@ -647,7 +663,7 @@ def build_unit(template, repo, variant='A'):
             outname = kw.get('as', name)
             if kw.get('assumed') and variant in kw['assumed'].split(','):
                 is_assumed = True
-            spec = {'ret': None, 'spec_lines': [], 'loops': {}, 'entry': [], 'anchors': [], 'closures': {}, 'attrs': []}
+            spec = {'ret': None, 'spec_lines': [], 'loops': {}, 'entry': [], 'anchors': [], 'closures': {}, 'attrs': [], 'loopbody': {}}
             section = None
             i += 1
             start_tno = tno
@@ -670,6 +686,10 @@ def build_unit(template, repo, variant='A'):
                     elif d2 == 'loop':
                         lines = []
                         spec['loops'][int(p2[0])] = (k2.get('iter'), lines)
+                        section = lines
+                    elif d2 == 'loopbody':
+                        lines = []
+                        spec['loopbody'][int(p2[0])] = lines
                         section = lines
                     elif d2 == 'attr':
                         spec['attrs'].append(rest2.strip())
@@ -712,6 +732,7 @@ def build_unit(template, repo, variant='A'):
                 spec['loops'] = {}
                 spec['anchors'] = []
                 spec['closures'] = {}
+                spec['loopbody'] = {}
                 fnpos, bopen, bclose = _sig_body(nt)
                 nt = nt[:bopen] + '{ unimplemented!() }'
             spliced = splice_fn(nt, spec, outname)
